@@ -28,9 +28,9 @@ if __name__ != '__main__':
     from harness.common import zlist
 
 GEN_MODULES = ['parallel']
-MODEL_TARGETS = ['model/M_Parallel.vo']
+MODEL_TARGETS = ['model/M_Parallel.vo', 'model/M_ParallelNcpu.vo']
 PROOF_TARGETS = ['proofs/P_Parallel.vo', 'proofs/P_ParallelLoud.vo', 'proofs/P_ParallelTop.vo',
-                 'proofs/P_ParallelPerm.vo', 'proofs/P_ParallelFair.vo']
+                 'proofs/P_ParallelPerm.vo', 'proofs/P_ParallelFair.vo', 'proofs/P_ParallelNcpu.vo']
 LEVEL = 'proof'
 RULE = ('real-process runs of parallelize: ncpu 1..8 x 0..20 tasks x fast/slow assignments of the processes '
         '(incl. late end markers, log records), single faults (worker, task index, kind in raise / exit code / '
@@ -935,6 +935,59 @@ def judge(ctx, cases, obs, nvariants):
                          'observed outcome class differs from the model on a schedule of the same plan: ' + e[:600])
 
 
+NCPU_VALUES = [None, -3, -1, 0, 1, 2, 3, 8, 64, 2.0, 1.5, '3', [2]]
+
+
+def _nval(v):
+    if v is None:
+        return 'VNone'
+    if isinstance(v, int) and not isinstance(v, bool):
+        return f'(VInt ({v}))'
+    return 'VBad'
+
+
+def run_get_ncpu_case(ctx, cfgv, local):
+    """real get_ncpu on one (configured, local) pair; returns (case, observed, model term)"""
+    from skyllh.core.multiproc import get_ncpu
+    case = {'stream': 'get_ncpu', 'cfg': repr(cfgv), 'local': repr(local)}
+    try:
+        r = get_ncpu({'multiproc': {'ncpu': cfgv}}, local)
+        obs = ['Ok', r] if (isinstance(r, int) and not isinstance(r, bool)) else ['Ok?', repr(r)]
+    except Exception as ex:  # noqa
+        obs = ['Err', type(ex).__name__]
+    # independent predicate: the first setting that is not None among local, cfg, 1; int >= 1 or a loud error
+    eff = local if local is not None else (cfgv if cfgv is not None else 1)
+    want = (['Ok', eff] if eff >= 1 else ['Err', 'ValueError']) if (isinstance(eff, int) and not isinstance(eff, bool)) \
+        else ['Err', 'TypeError']
+    ctx.case(case)
+    ctx.count('get_ncpu:' + (obs[1] if obs[0] == 'Err' else obs[0]))
+    if obs != want:
+        ctx.violation('multiproc.get_ncpu', 'wrong-ncpu' if obs[0] != 'Err' else 'wrong-error',
+                      f'get_ncpu(cfg ncpu={cfgv!r}, local_ncpu={local!r}) gave {obs}, expected {want}',
+                      case=case, impl=obs, model=want,
+                      predicate='first non-None of (local, configured, 1); an int >= 1, else TypeError / ValueError')
+    return case, obs, f'get_ncpu {_nval(cfgv)} {_nval(local)}'
+
+
+def check_get_ncpu(ctx, pairs=None):
+    """extension stream: real get_ncpu vs M_ParallelNcpu.get_ncpu on all pairs of valid and malformed settings"""
+    pairs = pairs or [(c, l) for c in NCPU_VALUES for l in NCPU_VALUES]
+    rows = [run_get_ncpu_case(ctx, c, l) for c, l in pairs]
+    if not ctx.model_ok:
+        return
+    imports = IMPORTS.replace('Result M_Parallel.', 'Result M_Parallel M_ParallelNcpu.')
+    try:
+        vals = common.coq_eval('c09n', imports, [e for _, _, e in rows])
+    except RuntimeError as ex:
+        ctx.broken.append({'kind': 'model-eval', 'error': str(ex)[:1500]})
+        return
+    for (case, obs, e), v in zip(rows, vals):
+        ctx.corr_cases += 1
+        m = ['Ok', v[1]] if (isinstance(v, tuple) and v[0] == 'Ok') else (['Err', v[1]] if isinstance(v, tuple) else ['?', repr(v)])
+        if m != obs:
+            ctx.disagree('multiproc.get_ncpu', case, obs, m, 'real get_ncpu differs from the model: ' + e)
+
+
 def check_array_split(ctx):
     """numpy.array_split chunk sizes vs the model's, n 0..40, k 1..10"""
     pairs = [(n, k) for n in range(0, 41) for k in range(1, 11)]
@@ -1051,12 +1104,16 @@ def run(ctx):
     seqs = gen_sequences(ctx)
     sobs = run_impl(seqs, watchdog, nproc=nproc)
     judge_sequences(ctx, seqs, sobs, nvariants=1)
+    check_get_ncpu(ctx)
     if ctx.model_ok:
         check_array_split(ctx)
 
 
 def replay(ctx, rp):
     case = rp.get('case') or {}
+    if case.get('stream') == 'get_ncpu':
+        import ast as _ast
+        return check_get_ncpu(ctx, [(_ast.literal_eval(case['cfg']), _ast.literal_eval(case['local']))])
     if 'ncpu' not in case or 'ntasks' not in case:
         ctx.notes.append('replay file has no runnable case (broken obligation): running the normal check')
         return run(ctx)
